@@ -259,7 +259,7 @@ CLAIMED = {
         "tangential position is negated and the ring difference is taken with exchanged end points under the same flag; by closed-form "
         "algebra arc-corrected get_s = tangential position * bin_size (uniform sampling, odd), non-arc-corrected get_s is odd, get_phi is "
         "affine in the view with slope azimuthal_angle_sampling, get_m is affine in the axial position with the segment's axial sampling, "
-        "get_tantheta is odd in the ring difference and even in s and equals the axial distance over the TRANSAXIAL distance of the end points in both geometry families (F39, fixed); the azimuthal offset of view-mashed data is pi/(N/2)*(M-1)/2 with a real-valued (M-1)/2. the coordinate getters of the blocks/generic geometries are components of the one get_LOR conversion (a getter using only the z components of the detection points is refused). in every branch of get_sino_coords the swapped flag is true exactly when the end points are exchanged (F77, fixed). NOT decided: that get_bin(get_LOR(bin)) returns the same or a "
+        "get_tantheta is odd in the ring difference and even in s and equals the axial distance over the TRANSAXIAL distance of the end points in both geometry families (F39, fixed); the azimuthal offset of view-mashed data is pi/(N/2)*(M-1)/2 with a real-valued (M-1)/2. the coordinate getters of the blocks/generic geometries are components of the one get_LOR conversion (a getter using only the z components of the detection points is refused). in every branch of get_sino_coords the swapped flag is true exactly when the end points are exchanged (F77, fixed); in find_cartesian_coordinates_given_scanner_coordinates the final ordering of the two points reads a local changed in exactly the branch that exchanges the detectors. NOT decided: that get_bin(get_LOR(bin)) returns the same or a "
         "neighbouring bin, agreement of the coordinates with the detectors' physical positions, TOF bin boundaries, arc correction "
         "preserving integrals (floating-point geometry over runtime scanner parameters).",
         technique="static analysis: typestate (range test after last modification) over clang CFG with short-circuit-aware ordering, "
@@ -306,6 +306,7 @@ CLAIMED = {
         "inter-iteration filter is only ever applied through the positivity-preserving wrapper set_up installs around it (chained with a "
         "threshold), on every path; the subset a sub-iteration uses (ordered schedule) and the interval decisions of end_of_iteration_processing are "
         "functions of the sub-iteration number and shared settings only, never of start_subiteration_num (structural part of restartability). The EM update formula, "
+        "no decision of update_estimate (locals inlined) reads start_subiteration_num. "
         "non-negativity, monotonicity, count preservation and equality of resumed and uninterrupted images are NOT decided.",
         technique="static analysis: must-pass-through ordering with resolved operands, closed-form evaluation of a straight-line loop "
         "body and exact piecewise-linear comparison",
@@ -320,7 +321,7 @@ CLAIMED = {
         "approximate Hessian applied to an image of ones is accumulated and then negated once (every element, every path), and the "
         "divisor is 2 * prior.parabolic_surrogate_curvature(current image) + stored part with a prior, the stored part without; every successful path of set_up() "
         "renews the stored denominator (the previous run modified it in place); a prior that says its surrogate curvature does not depend on the image reads no image element when computing it (F37, fixed); "
-        "nothing that modifies the iterate is conditional on the sub-iteration the run started at (known finding F38: voxels the data do not determine are zeroed at every run start). NOT "
+        "nothing that modifies the iterate is conditional on the sub-iteration the run started at (known finding F38: voxels the data do not determine are zeroed at every run start); the clamp - threshold_upper_lower or a hand-written one - applies each bound to every element unconditionally; set_up() refuses an upper bound <= 0 (F99, fixed). NOT "
         "decided: the values of the Hessian and curvature themselves, equality of resumed and uninterrupted images.",
         technique="static analysis: must-pass-through / dominance on clang CFG, must-facts at divisions, expression-shape matching "
         "of the update pipeline",
